@@ -35,6 +35,9 @@ def gen_case(rng):
         else:
             k = max(range(len(d['fields'])), key=lambda i: abs(d['fields'][i][0]))
             d['fields'][k][0] = -d['fields'][k][0]
+    if finite and d['surfaces'][1]['material']['kind'] in ('ideal', 'catalog') and rng.random() < 0.25:
+        # immersed object (water, oil): the object-space index enters the numerical aperture
+        d['surfaces'][0]['material'] = {'kind': 'ideal', 'n': dyadic(rng, 1.2, 1.7, 6)}
     # vignetting table
     if rng.random() < 0.5:
         for f in d['fields']:
@@ -347,6 +350,19 @@ def work(ctx, cases):
             hi = max(f.vx for f in optic.fields.fields)
             if not (lo - 1e-15 <= float(vx) <= hi + 1e-15):
                 ctx.fail('interpolated vignetting factor lies between the field factors', case, float(vx), [lo, hi])
+            # independent specification: linear interpolation between the defined fields ordered by y (from the
+            # descriptor; the order in which the fields were entered does not matter)
+            fd = sorted(([float(f[0])] + [float(v) for v in (f[2:4] if len(f) >= 4 else [0.0, 0.0])]
+                         for f in case['desc']['fields']), key=lambda t_: t_[0])
+            ymax = max(f_[0] for f_ in fd)
+            if ymax > 0 and len({f_[0] for f_ in fd}) == len(fd):
+                hs = [f_[0] / ymax for f_ in fd]
+                ex = float(np.interp(h, hs, [f_[1] for f_ in fd]))
+                ey = float(np.interp(h, hs, [f_[2] for f_ in fd]))
+                if abs(float(vx) - ex) > 1e-12 or abs(float(vy) - ey) > 1e-12:
+                    ctx.fail('vignetting factors are interpolated linearly between the defined fields (ordered by y)',
+                             dict(case, h=h), [float(vx), float(vy)], [ex, ey])
+                    break
         predicate(ctx, optic, case, gen, w)
         # combinations that must be rejected
         d = case['desc']
